@@ -114,10 +114,19 @@ def run_unit(name, mod, only_props, tier):
         try:
             body, header = fn_body(read(c.get("file", mod.FILE)), c["item"], c.get("closure"))
             info["edits"].append("extract body of %s :: %s (comments dropped; parsed by polyvc)" % (c.get("file", mod.FILE), " :: ".join(c["item"])))
+            if c.get("capture"):
+                # statement-range slice: the single regex group captured in the comment-free, whitespace-collapsed
+                # body, optionally placed into a context (e.g. followed by a tail expression naming the results)
+                sq = rs.squash(body, rs.mask(body))
+                mms = list(re.finditer(c["capture"], sq))
+                if len(mms) != 1:
+                    raise rs.ScanError("capture %r matches %d times" % (c["capture"], len(mms)))
+                body = c.get("wrap", "%s") % mms[0].group(1)
+                info["edits"].append("slice of %s :: %s: capture %r (rest of the function dropped)" % (c.get("file", mod.FILE), " :: ".join(c["item"]), c["capture"]))
             results = []
             cases = c.get("cases") or [None]
             for case in cases:
-                env = mod.make_env()
+                env = c["env"]() if "env" in c else mod.make_env()
                 if case:
                     env.case.update(case["case"])
                 loc = c["inputs"]()
